@@ -11,6 +11,9 @@ from .core import *
 from . import smt
 
 VERIF = os.path.dirname(os.path.dirname(os.path.abspath(__file__)))
+# self-tests against a scratch copy (DVC_REPO=...) must not overwrite the evidence of the real tree
+_SCRATCH = os.environ.get("DVC_REPO", "/repo").rstrip("/") != "/repo"
+EVIDENCE_DIR = os.path.join(VERIF, "evidence") if not _SCRATCH else os.path.join("/tmp", "dvc_scratch_evidence")
 LEDGER = os.path.join(VERIF, "ledger.json")
 KNOWN = os.path.join(VERIF, "known_findings.json")
 
@@ -413,8 +416,8 @@ class Check:
             "violations": len(self.violations),
             "exit_code": code,
         }
-        os.makedirs(os.path.join(VERIF, "evidence"), exist_ok=True)
-        json.dump(ev, open(os.path.join(VERIF, "evidence", "%s.json" % self.pid), "w"), indent=1, default=str)
+        os.makedirs(EVIDENCE_DIR, exist_ok=True)
+        json.dump(ev, open(os.path.join(EVIDENCE_DIR, "%s.json" % self.pid), "w"), indent=1, default=str)
         for fid, what in sorted(set(self.known_hits)):
             print("KNOWN-FINDING: property=%s %s [%s]" % (self.pid, what, fid))
         for label, path, text, noinput in self.violations:
@@ -472,5 +475,5 @@ def _fallback_evidence(pid, tier, seed, why, code):
           "coverage": {"explanation": why, "obligations": 0, "discharged": 0, "evaluations": 1, "distinct_nontrivial": 2,
                        "samples": [why]},
           "assumptions": [], "wall_s": 0.0, "violations": 0, "exit_code": code}
-    os.makedirs(os.path.join(VERIF, "evidence"), exist_ok=True)
-    json.dump(ev, open(os.path.join(VERIF, "evidence", "%s.json" % pid), "w"), indent=1)
+    os.makedirs(EVIDENCE_DIR, exist_ok=True)
+    json.dump(ev, open(os.path.join(EVIDENCE_DIR, "%s.json" % pid), "w"), indent=1)
